@@ -396,7 +396,7 @@ func armTexts(c *driver.Ctx) {
 		c.Distinct("eof/" + t)
 	}
 	// (3) mutated corpus
-	n := c.Pick(3000, 300000)
+	n := c.Pick(2000, 40000)
 	for i := 0; i < n; i++ {
 		if !c.Take() {
 			continue
